@@ -23,7 +23,29 @@ pub mod tcbspec {
     pub open spec fn http_state_wf(h: crate::proto::http::ProtocolState) -> bool {
         HTTP_TABLE().state_ok(h.smack_state) && (h.smack_state >> 24) == 0
     }
-    pub uninterp spec fn rpc_state_wf(r: crate::proto::rpc::ProtocolState) -> bool;
+    pub open spec fn pow256u(k: u32) -> int { if k == 0 { 1 } else if k == 1 { 256 } else if k == 2 { 65536 } else if k == 3 { 16777216 } else { 4294967296 } }
+    /// representation invariant of the incremental ONC-RPC call parser: the 32-bit field being read holds the
+    /// bytes read so far, fields not yet reached are zero, a counted string is only entered with a positive count
+    pub open spec fn rpc_state_wf(r: crate::proto::rpc::ProtocolState) -> bool {
+        use crate::proto::rpc::RpcState;
+        &&& r.cur_len < 4
+        &&& match r.state {
+            RpcState::Frag => r.xid == 0 && r.message_type == 0 && r.rpc_version == 0 && r.program == 0 && r.prog_version == 0 && r.procedure == 0 && r.creds_flavor == 0 && r.verif_flavor == 0 && r.data_len == 0,
+            RpcState::Xid => (r.xid as int) < pow256u(r.cur_len) && r.message_type == 0 && r.rpc_version == 0 && r.program == 0 && r.prog_version == 0 && r.procedure == 0 && r.creds_flavor == 0 && r.verif_flavor == 0 && r.data_len == 0,
+            RpcState::MessageType => (r.message_type as int) < pow256u(r.cur_len) && r.rpc_version == 0 && r.program == 0 && r.prog_version == 0 && r.procedure == 0 && r.creds_flavor == 0 && r.verif_flavor == 0 && r.data_len == 0,
+            RpcState::RpcVersion => (r.rpc_version as int) < pow256u(r.cur_len) && r.program == 0 && r.prog_version == 0 && r.procedure == 0 && r.creds_flavor == 0 && r.verif_flavor == 0 && r.data_len == 0,
+            RpcState::Program => (r.program as int) < pow256u(r.cur_len) && r.prog_version == 0 && r.procedure == 0 && r.creds_flavor == 0 && r.verif_flavor == 0 && r.data_len == 0,
+            RpcState::ProgramVersion => (r.prog_version as int) < pow256u(r.cur_len) && r.procedure == 0 && r.creds_flavor == 0 && r.verif_flavor == 0 && r.data_len == 0,
+            RpcState::Procedure => (r.procedure as int) < pow256u(r.cur_len) && r.creds_flavor == 0 && r.verif_flavor == 0 && r.data_len == 0,
+            RpcState::CredsFlavor => (r.creds_flavor as int) < pow256u(r.cur_len) && r.verif_flavor == 0 && r.data_len == 0,
+            RpcState::CredsLen => (r.data_len as int) < pow256u(r.cur_len) && r.verif_flavor == 0,
+            RpcState::Creds => r.data_len >= 1 && r.cur_len == 0 && r.verif_flavor == 0,
+            RpcState::VerifFlavor => (r.verif_flavor as int) < pow256u(r.cur_len) && r.data_len == 0,
+            RpcState::VerifLen => (r.data_len as int) < pow256u(r.cur_len),
+            RpcState::Verif => r.data_len >= 1 && r.cur_len == 0,
+            RpcState::End => r.cur_len == 0,
+        }
+    }
     pub open spec fn tcb_wf(t: TCPControlBlock) -> bool {
         smack_state_ok(t.smack_state)
         && t.proto_id <= 8
